@@ -755,6 +755,83 @@ func (g *gen) readSome(t *hx.Tx, kinds []string, full bool) {
 	}
 }
 
+// battery runs a read-only transaction whose calls are a function of seed only.
+func (g *gen) battery(seed int64, kinds []string) {
+	saved := g.r
+	g.r = rand.New(rand.NewSource(seed))
+	g.view(func(t *hx.Tx) {
+		for i := 0; i < 2; i++ {
+			g.readSome(t, kinds, true)
+		}
+		// every structure of every bucket, also the ones that only ever saw
+		// operations that were no-ops
+		for _, b := range g.u.StBuckets {
+			for _, k := range g.u.StKeys {
+				t.SCard(b, k)
+				t.SHasKey(b, k)
+				t.SMembers(b, k)
+			}
+		}
+		for _, b := range g.u.LsBuckets {
+			for _, k := range g.u.LsKeys {
+				t.LSize(b, k)
+				t.LRange(b, k, 0, -1)
+			}
+		}
+		for _, b := range g.u.ZsBuckets {
+			t.ZCard(b)
+			t.ZMembers(b)
+		}
+		for _, b := range g.u.KvBuckets {
+			t.GetAll(b)
+		}
+	})
+	g.r = saved
+}
+
+// reopenCompare (C08): the same read battery right before Close and right
+// after Open.  The events after Open carry the digest of the corresponding
+// event before Close; the specification requires the two to be equal
+// (result for result, error for error) besides both being admitted.
+func (g *gen) reopenCompare(kinds []string) bool {
+	seed := g.r.Int63()
+	main := g.s.R
+	capture := func() []hx.Ev {
+		g.s.R = &hx.Recorder{Hold: true, Cnt: map[string]int{}, Base: main.Base}
+		g.battery(seed, kinds)
+		evs := g.s.R.Evs
+		g.s.R = main
+		return evs
+	}
+	before := capture()
+	for _, e := range before {
+		main.Emit(e)
+	}
+	g.s.Close()
+	if g.s.Open() != nil {
+		return false
+	}
+	after := capture()
+	for i, e := range after {
+		d := "missing"
+		if i < len(before) {
+			d = digest(before[i])
+		}
+		e["alt"] = []string{d, digest(e)}
+		e["cmp"] = true
+		if i < len(before) {
+			if be, ok := before[i]["err"].(bool); ok {
+				e["berr"] = be
+			}
+			if bo, ok := before[i]["ok"].(bool); ok {
+				e["bok"] = bo
+			}
+		}
+		main.Emit(e)
+	}
+	return true
+}
+
 // afterFinish calls APIs on a finished transaction: each must return an error.
 func (g *gen) afterFinish(t *hx.Tx) {
 	t.Put("b1", []byte("a"), []byte("v"), 0)
@@ -1006,8 +1083,7 @@ func (g *gen) histMixed(o mixOpts) {
 			}
 		}
 		if g.r.Intn(12) == 0 {
-			g.s.Close()
-			if g.s.Open() != nil {
+			if !g.reopenCompare(o.kinds) {
 				return
 			}
 			g.s.Obs()
@@ -1015,8 +1091,7 @@ func (g *gen) histMixed(o mixOpts) {
 	}
 	g.s.Obs()
 	g.s.Shadow(dir + "-shadow")
-	g.s.Close()
-	if g.s.Open() != nil {
+	if !g.reopenCompare(o.kinds) {
 		return
 	}
 	g.s.Obs()
@@ -1112,6 +1187,10 @@ func main() {
 			g.histCrash(crashOpts{kinds: []string{"kv", "list", "set", "zset"}, power: true, allTorn: g.c.AllTorn})
 		case "powerkv":
 			g.histCrash(crashOpts{kinds: []string{"kv"}, power: true, allTorn: g.c.AllTorn})
+		case "crashcont": // C10/C09: the history continues on the crashed directory
+			g.histCrashCont([]string{"kv", "list", "set", "zset"})
+		case "crashcontkv":
+			g.histCrashCont([]string{"kv"})
 		case "crashmerge": // C16
 			g.histCrash(crashOpts{kinds: []string{"kv", "list", "set", "zset"}, merges: true, allTorn: g.c.AllTorn})
 		case "crashmergekv":
